@@ -37,7 +37,7 @@ ASSUMPTIONS = ["controlBuf.executeAndPut runs its closure under controlBuf.mu (s
 RULE = ("cases = start (MAX_CONCURRENT_STREAMS none/0..5, optional header-list limit) followed by 12-40 ops: concurrent NewStream "
         "bursts (1-4 callers, optional ctx deadline, big header list), SETTINGS raise/lower/0/none/duplicate, server END_STREAM / "
         "RST_STREAM, client cancel / half-close, double closes, closes of unknown ids, ctx cancel of a parked caller, virtual sleep past "
-        "deadlines, GOAWAY, Close, MaxStreamID drain; directed prefixes for lower-below-open, limit 0, raise-with-waiters, stale token, "
+        "deadlines, GOAWAY, Close, MaxStreamID drain, bursts (peer frames back to back + concurrent client-side closes/calls with no settle in between); directed prefixes for lower-below-open, limit 0, raise-with-waiters, stale token, "
         "lost wake-up; a case is non-trivial if a caller was parked in it; distinct = distinct op list")
 
 KNOWN_DIRECTED = [
@@ -78,6 +78,11 @@ DIRECTED = [
     # MaxStreamID drain
     ["start 3 maxid=5", "new 1", "new 1", "new 1", "new 1"],
     ["start 5 maxid=3", "new 3", "srvend 1"],
+    # bursts: several closes before any woken waiter runs (one-slot token: the admitted waiter must re-signal)
+    ["start 2", "new 4", "burst srvend:1 srvend:3", "burst cclose:5 cclose:7"],
+    ["start 3", "new 6", "burst srvend:1 srvrst:3:8 srvend:5", "burst cclose:7 cclose:9 cclose:11"],
+    ["start 1", "new 3", "burst cclose:1 new:1", "burst srvend:3 settings:2", "burst srvend:5 srvend:7 settings:0 new:1"],
+    ["start 2", "new 3", "burst srvend:1 cclose:3 new:2 settings:3", "burst srvrst:5:8 cclose:5 settings:1 new:1", "burst srvend:7 srvend:9 cclose:11"],
     # header list limit from the preface
     ["start 2 hl=1000", "new 1 sz=B", "new 2", "new 1 sz=B", "new 1", "srvend 1"],
 ]
@@ -146,7 +151,7 @@ def random_case(rng, with_hls):
             else:
                 ops.append("settings %d" % v)
                 m.settings(v)
-        elif r < 0.78:
+        elif r < 0.72:
             if m.open and rng.random() < 0.9:
                 i = rng.choice(m.open)
             else:
@@ -161,6 +166,34 @@ def random_case(rng, with_hls):
                 if rng.random() < 0.15:
                     k2 = rng.choice(["srvend", "cclose", "srvrst"])
                     ops.append("srvrst %d 8" % i if k2 == "srvrst" else "%s %d" % (k2, i))
+        elif r < 0.80:
+            subs = []
+            ids = list(m.open)
+            rng.shuffle(ids)
+            for i in ids[:rng.choice([1, 2, 2, 3])]:
+                k2 = rng.choice(["srvend", "srvend", "cclose", "cclose", "srvrst"])
+                subs.append("srvrst:%d:8" % i if k2 == "srvrst" else "%s:%d" % (k2, i))
+                if rng.random() < 0.1:
+                    subs.append("cclose:%d" % i)
+            if rng.random() < 0.3:
+                v = rng.choice([0, 1, 2, 3, len(m.open)])
+                subs.append("settings:%d" % v)
+            if rng.random() < 0.3 and callers < 7:
+                k = rng.choice([1, 1, 2])
+                k = min(k, 8 - callers)
+                subs.append("new:%d" % k)
+                callers += k
+            rng.shuffle(subs)
+            if subs:
+                ops.append("burst " + " ".join(subs))
+                for sub in subs:
+                    pp = sub.split(":")
+                    if pp[0] in ("srvend", "cclose", "srvrst"):
+                        m.close(int(pp[1]))
+                    elif pp[0] == "settings":
+                        m.settings(int(pp[1]))
+                    elif pp[0] == "new":
+                        m.new(int(pp[1]))
         elif r < 0.84:
             ops.append("cancelb %d" % rng.randrange(0, 4))
             if m.blocked:
@@ -183,7 +216,7 @@ def random_case(rng, with_hls):
 
 
 def gen(rng, tier):
-    n_rand = {"quick": 500, "thorough": 30000, "search": 12000}[tier]
+    n_rand = {"quick": 500, "thorough": 12000, "search": 5000}[tier]
     for i, ops in enumerate(DIRECTED):
         yield Case("s_quota", ops, "directed-%d" % i)
     for i, ops in enumerate(KNOWN_DIRECTED):
